@@ -23,8 +23,8 @@ def c06_refine(inp, obligation):
     m = max(l0, l1)
     if list(c0.levels) != [l0, m + 1] or list(c1.levels) != [m + 1, l1]:
         bad.append("child levels %r %r, expected %r %r" % (c0.levels, c1.levels, [l0, m + 1], [m + 1, l1]))
-    if c0.coarsening_level != max(c - 1, 0) or c1.coarsening_level != max(c - 1, 0):
-        bad.append("child coarsening %r %r expected %r" % (c0.coarsening_level, c1.coarsening_level, max(c - 1, 0)))
+    # (the children's provisional coarsening is not judged here: it is recomputed by update_coarsening_values before the next observation;
+    #  the whole-structure clause of layer B decides whether a different provisional value matters)
     if (o.start, o.end, list(o.levels), o.coarsening_level) != (inp["start"], inp["end"], [l0, l1], c):
         bad.append("receiver modified")
     return bool(bad), {"violations": bad}
